@@ -57,6 +57,12 @@ fn part1_programs() -> Vec<(String, Vec<Sig>, Vec<Vec<Sig>>)> {
         text.push_str("0 0 0 1 2 3 X 4 X\nC C C X X X 2 X 6\n( t0 ) ( t1 ) ( t2 ) X X X X X X\n");
         out.push((text, good.clone(), vec![bad_c.clone(), bad_r.clone()]));
     }
+    // four declarations, four clock columns, four read outputs: 24 orders each, one map at a time
+    out.push((
+        "C1 C2 C3 C4 R1 R2 R3 R4\nC 0 0 0 X X X X\n0 0 0 C X X X X\n0 C 0 0 X X X X\n0 0 C 0 X X X X\nlet t = R3 + R1 + R4 + R2 ;\ndeclare W4 = R4 ;\ndeclare W2 = R2 ;\ndeclare W1 = R1 ;\ndeclare W3 = R3 ;\nC C C C 1 2 3 4\n".into(),
+        vec![Sig::inp("C1", 1, 0), Sig::inp("C2", 1, 0), Sig::inp("C3", 1, 0), Sig::inp("C4", 1, 0), Sig::out("R1", 8), Sig::out("R2", 8), Sig::out("R3", 8), Sig::out("R4", 8)],
+        vec![],
+    ));
     // fewer items per map
     out.push(("C1 R1 V1\ndeclare V1 = R1 ;\nC X X\n( R1 ) 1 1\n".into(), vec![Sig::inp("C1", 1, 0), Sig::out("R1", 8)], vec![]));
     out.push(("C1 C2 R1 R2\nC C ( R2 ) ( R1 )\ndeclare W = R2 - R1 ;\ndeclare U = R1 ;\n0 0 1 1\n".into(), vec![Sig::inp("C1", 1, 0), Sig::inp("C2", 1, 0), Sig::out("R1", 8), Sig::out("R2", 8)], vec![]));
@@ -99,10 +105,15 @@ fn part1(st: &mut Stats) {
             Err(e) => miette_chain(&e),
         }).collect();
         let (f0, f1, f2) = (fact(sizes[0]), fact(sizes[1]), fact(sizes[2]));
-        st.space("part 1: (program, drain order of the three hash maps) combinations", (f0 * f1 * f2) as u64);
+        // with four items per map the full product (24^3) is replaced by one map at a time
+        let product = f0 * f1 * f2 <= 216;
+        st.space("part 1: (program, drain order of the three hash maps) combinations", if product { (f0 * f1 * f2) as u64 } else { (f0 + f1 + f2) as u64 });
         for a in 0..f0 {
             for b in 0..f1 {
                 for c in 0..f2 {
+                    if !product && (a > 0) as u8 + (b > 0) as u8 + (c > 0) as u8 > 1 {
+                        continue;
+                    }
                     hooks::set_map_order(0, a);
                     hooks::set_map_order(1, b);
                     hooks::set_map_order(2, c);
